@@ -385,6 +385,197 @@ impl Job for Transcript {
     }
 }
 
+// ---------------------------------------------------------------------------------------------------------
+// C03 / C06: mutated proofs
+// ---------------------------------------------------------------------------------------------------------
+/// outcome of parsing + verifying a byte string: "parse-error" | "rejected" | "accepted-same" | "accepted-different" |
+/// "panic@..." (where: parse | verify)
+pub fn judge_bytes<B: SField, H: ElementHasher<BaseField = B> + Sync + Send>(
+    bytes: &[u8],
+    original: &[u8],
+    partitions_off: usize,
+    inputs: &ShapeInputs<B>,
+) -> String {
+    let parsed = guarded(|| Proof::from_bytes(bytes));
+    let p = match parsed {
+        Ok(Ok(p)) => p,
+        Ok(Err(_)) => return "parse-error".into(),
+        Err(p) => return format!("panic@parse/{}", panic_key(&p)),
+    };
+    // decoded content, normalised for the two exemptions of C03: partition count byte masked, digests re-encoded
+    let reenc = guarded(|| p.to_bytes());
+    let v = verify_with::<B, H, DefaultRandomCoin<H>>(p, inputs.clone());
+    match v {
+        Ok(()) => {
+            let same = match reenc {
+                Ok(mut r) => {
+                    let mut o = original.to_vec();
+                    if r.len() == o.len() && partitions_off < r.len() {
+                        r[partitions_off] = 0;
+                        o[partitions_off] = 0;
+                    }
+                    r == o
+                },
+                Err(_) => false,
+            };
+            if same { "accepted-same".into() } else { "accepted-different".into() }
+        },
+        Err(e) if e.starts_with("panic@") => format!("panic@verify/{}", &e[6..]),
+        Err(_) => "rejected".into(),
+    }
+}
+
+/// remainder + c * prod (x - x_s) over the queried points of the remainder domain, if its degree fits
+fn adaptive_remainder<B: SField, E: winter_math::FieldElement<BaseField = B>>(sc: &Scenario, positions: &[usize], rem_bytes: &[u8]) -> Option<Vec<u8>> {
+    use winter_math::polynom;
+    use winter_utils::{ByteReader, Deserializable, Serializable, SliceReader};
+    let n_rem = rem_bytes.len() / E::ELEMENT_BYTES;
+    let rem: Vec<E> = SliceReader::new(rem_bytes).read_many(n_rem).ok()?;
+    let mut dom = sc.shape.n * sc.opts.blowup;
+    let mut pos = positions.to_vec();
+    let fo = winter_fri::FriOptions::new(sc.opts.blowup, sc.opts.fold, sc.opts.rem);
+    for _ in 0..fo.num_fri_layers(dom) {
+        pos = winter_fri::folding::fold_positions(&pos, dom, sc.opts.fold);
+        dom /= sc.opts.fold;
+    }
+    if pos.len() + 1 > n_rem {
+        return None;
+    }
+    let g = B::get_root_of_unity(dom.ilog2());
+    let xs: Vec<E> = pos.iter().map(|&p| E::from(B::GENERATOR * g.exp((p as u64).into()))).collect();
+    let mut z = polynom::poly_from_roots(&xs);
+    z.resize(n_rem, E::ZERO);
+    let out: Vec<E> = rem.iter().zip(z.iter()).map(|(a, b)| *a + *b).collect();
+    let mut bytes = Vec::new();
+    for e in &out {
+        e.write_into(&mut bytes);
+    }
+    let _ = E::read_from_bytes(&bytes[..E::ELEMENT_BYTES]);
+    Some(bytes)
+}
+
+pub struct Mutate {
+    pub grammar: Vec<crate::wire::Field>,
+    pub mutations: Vec<crate::wire::Mutation>,
+    pub bitflips: bool,
+    pub byte_edits: usize,
+    pub truncations: bool,
+}
+impl Job for Mutate {
+    fn run<B: SField, H: ElementHasher<BaseField = B> + Sync + Send>(&mut self, sc: &Scenario) -> Value {
+        use crate::common::Rng;
+        use crate::wire::{apply, spans};
+        use std::collections::BTreeMap;
+        let b = build::<B>(sc);
+        let proof = match prove_with::<B, H, DefaultRandomCoin<H>>(sc, b.cols.clone(), None) {
+            Ok(p) => p,
+            Err(e) => return json!({"id": sc.id, "prove": e}),
+        };
+        let bytes = proof.to_bytes();
+        let sp = match spans(&bytes, &self.grammar) {
+            Some(s) => s,
+            None => return json!({"id": sc.id, "prove": "ok", "grammar": "the serialized proof does not follow the grammar of Wire.tla"}),
+        };
+        let poff = sp.iter().find(|s| s.name == "fri.partitions").map(|s| s.off).unwrap_or(usize::MAX);
+        let honest = judge_bytes::<B, H>(&bytes, &bytes, poff, &b.inputs);
+        let ext_bytes = B::ELEMENT_BYTES * sc.ext as usize;
+        let mut tally: BTreeMap<String, usize> = BTreeMap::new();
+        let mut findings: Vec<Value> = vec![];
+        let mut record = |what: String, outcome: String, tally: &mut BTreeMap<String, usize>, findings: &mut Vec<Value>, may_keep: bool| {
+            *tally.entry(outcome.split('/').next().unwrap_or("").split('@').next().unwrap_or("").to_string()).or_default() += 1;
+            let bad = outcome.starts_with("panic@") || outcome == "accepted-different" || (outcome == "accepted-same" && !may_keep && !what.starts_with("bit") && !what.starts_with("byte"));
+            if bad && findings.len() < 400 {
+                findings.push(json!({"mutation": what, "outcome": outcome}));
+            }
+        };
+        // structured mutations of Wire.tla
+        let mut applied = 0usize;
+        for mu in &self.mutations {
+            let chunk = if mu.field == "commitments" || mu.field.ends_with(".paths") { 32 } else { ext_bytes };
+            if let Some(mb) = apply(&bytes, &sp, mu, chunk) {
+                applied += 1;
+                let o = judge_bytes::<B, H>(&mb, &bytes, poff, &b.inputs);
+                record(format!("{}:{}", mu.field, mu.m), o, &mut tally, &mut findings, mu.may_keep_content);
+            }
+        }
+        // every single-bit flip
+        let mut flips = 0usize;
+        if self.bitflips {
+            for i in 0..bytes.len() {
+                for bit in 0..8 {
+                    let mut mb = bytes.clone();
+                    mb[i] ^= 1 << bit;
+                    let o = judge_bytes::<B, H>(&mb, &bytes, poff, &b.inputs);
+                    let field = sp.iter().rev().find(|s| s.off <= i).map(|s| s.name.clone()).unwrap_or_default();
+                    record(format!("bit {}.{} in {}", i, bit, field), o, &mut tally, &mut findings, i == poff);
+                    flips += 1;
+                }
+            }
+        }
+        // random single-byte edits, truncations at every offset, trailing garbage
+        let mut rng = Rng(sc.seed ^ 0xb17e);
+        for _ in 0..self.byte_edits {
+            let i = rng.below(bytes.len() as u64) as usize;
+            let mut mb = bytes.clone();
+            let nv = rng.next() as u8;
+            if nv == mb[i] {
+                continue;
+            }
+            mb[i] = nv;
+            let o = judge_bytes::<B, H>(&mb, &bytes, poff, &b.inputs);
+            let field = sp.iter().rev().find(|s| s.off <= i).map(|s| s.name.clone()).unwrap_or_default();
+            record(format!("byte {} := {} in {}", i, nv, field), o, &mut tally, &mut findings, i == poff);
+        }
+        let mut truncs = 0usize;
+        if self.truncations {
+            for cut in 0..bytes.len() {
+                let o = judge_bytes::<B, H>(&bytes[..cut], &bytes, poff, &b.inputs);
+                record(format!("truncate at {}", cut), o, &mut tally, &mut findings, false);
+                truncs += 1;
+            }
+            let mut mb = bytes.clone();
+            mb.extend([0xde, 0xad, 0xbe, 0xef]);
+            let o = judge_bytes::<B, H>(&mb, &bytes, poff, &b.inputs);
+            // bytes after the end of the proof do not change the decoded proof
+            record("trailing garbage".into(), o, &mut tally, &mut findings, true);
+        }
+        // consistency-preserving substitution that needs the query positions: the FRI remainder plus a multiple of the
+        // vanishing polynomial of the queried points of the last layer
+        let adaptive = {
+            use crate::rec::{clog_take, RecCoin};
+            use winter_math::fields::{CubeExtension, QuadExtension};
+            clog_take();
+            let _ = verify_with::<B, H, RecCoin<H>>(Proof::from_bytes(&bytes).unwrap(), b.inputs.clone());
+            let log = clog_take();
+            let positions: Vec<usize> = log.iter().find(|c| c.op == "ints").map(|c| {
+                let mut p: Vec<usize> = c.ints.iter().map(|x| *x as usize).collect();
+                p.sort_unstable();
+                p.dedup();
+                p
+            }).unwrap_or_default();
+            let rs = sp.iter().find(|s| s.name == "fri.remainder").unwrap();
+            let rem_bytes = &bytes[rs.off + rs.width..rs.off + rs.width + rs.len];
+            let new_rem = match sc.ext {
+                1 => adaptive_remainder::<B, B>(sc, &positions, rem_bytes),
+                2 => adaptive_remainder::<B, QuadExtension<B>>(sc, &positions, rem_bytes),
+                _ => adaptive_remainder::<B, CubeExtension<B>>(sc, &positions, rem_bytes),
+            };
+            match new_rem {
+                Some(nr) => {
+                    let mut mb = bytes.clone();
+                    mb[rs.off + rs.width..rs.off + rs.width + rs.len].copy_from_slice(&nr);
+                    let o = judge_bytes::<B, H>(&mb, &bytes, poff, &b.inputs);
+                    record("adaptive: fri.remainder + multiple of the vanishing polynomial of the queried points".into(), o.clone(), &mut tally, &mut findings, false);
+                    o
+                },
+                None => "n/a (more queried points than remainder coefficients)".to_string(),
+            }
+        };
+        json!({"id": sc.id, "prove": "ok", "honest": honest, "bytes": bytes.len(), "structured": applied, "bitflips": flips, "adaptive": adaptive,
+               "truncations": truncs, "tally": tally, "findings": findings})
+    }
+}
+
 pub fn main(args: &[String]) -> i32 {
     use std::io::BufRead;
     let mode = args.get(0).map(|s| s.as_str()).unwrap_or("");
@@ -395,9 +586,25 @@ pub fn main(args: &[String]) -> i32 {
     use std::io::Write;
     let mut out = out.lock();
     let mut tr = Transcript { out: vec![] };
+    let mut mutate = Mutate { grammar: vec![], mutations: vec![], bitflips: false, byte_edits: 0, truncations: false };
+    if mode == "mutate" {
+        let mp = crate::common::arg_value(args, "--mutations").expect("--mutations");
+        for l in std::fs::read_to_string(mp).unwrap().lines() {
+            let v: Value = serde_json::from_str(l).unwrap();
+            if let Some(g) = v.get("grammar") {
+                mutate.grammar = serde_json::from_value(g.clone()).unwrap();
+            } else {
+                mutate.mutations.push(serde_json::from_value(v).unwrap());
+            }
+        }
+        mutate.bitflips = args.iter().any(|a| a == "--bitflips");
+        mutate.truncations = args.iter().any(|a| a == "--truncations");
+        mutate.byte_edits = crate::common::arg_value(args, "--byte-edits").and_then(|s| s.parse().ok()).unwrap_or(0);
+    }
     for sc in &scs {
         let v = match mode {
             "transcript" => dispatch(&mut tr, sc),
+            "mutate" => dispatch(&mut mutate, sc),
             "complete" => dispatch(&mut Complete, sc),
             "sound" => dispatch(&mut Sound, sc),
             m => {
